@@ -81,6 +81,8 @@ func (w *World) exec(op Op) {
 	case "retained":
 		w.settle()
 		w.checkRetained()
+	case "gcwait":
+		w.opGCWait(op)
 	case "gcpass":
 		w.opGCPass(op)
 	case "rmrepo":
